@@ -694,7 +694,7 @@ Qed.
 
 Lemma expire_core w tip : WF w -> Core w -> Core (expire w tip) /\ WF (expire w tip).
 Proof.
-  unfold expire. generalize (filter (fun t => (t_parent t =? w_active w) && outstanding t) (w_log w)).
+  unfold expire. generalize (filter (fun t => (t_parent t =? w_active w) && expirable t) (w_log w)).
   intros l. revert w. induction l as [|t r IH]; intros w Hwf Hc; cbn [fold_left]; [split; assumption|].
   assert (H : Core (expire_one tip w t) /\ WF (expire_one tip w t)).
   { unfold expire_one. destruct (t_ttl t); [|split; assumption]. destruct (_ <=? _); [|split; assumption].
@@ -1402,7 +1402,7 @@ Qed.
 Lemma expire_uniq w tip :
   WF w -> Core w -> Uniq (w_log w) -> Uniq (w_log (expire w tip)).
 Proof.
-  unfold expire. generalize (filter (fun t => (t_parent t =? w_active w) && outstanding t) (w_log w)).
+  unfold expire. generalize (filter (fun t => (t_parent t =? w_active w) && expirable t) (w_log w)).
   intros l. revert w. induction l as [|t r IH]; intros w Hwf Hc Hu; cbn [fold_left]; [exact Hu|].
   assert (H : WF (expire_one tip w t) /\ Core (expire_one tip w t) /\ Uniq (w_log (expire_one tip w t))).
   { unfold expire_one. destruct (t_ttl t); [|auto]. destruct (_ <=? _); [|auto].
